@@ -468,7 +468,8 @@ impl LdapConnAsync {
                 if path.is_empty() {
                     return Err(LdapError::EmptyUnixPath);
                 }
-                if path.contains(':') {
+                // A numeric port is split off by the URL parser and never shows up in the host part.
+                if path.contains(':') || url.port().is_some() {
                     return Err(LdapError::PortInUnixPath);
                 }
                 let dec_path = percent_decode(path.as_bytes()).decode_utf8_lossy();
